@@ -268,6 +268,53 @@ func checkSeatLookups(c *Ctx, rule string) {
 				}
 				c.Check(okRet, rule, "seat-scan-result:"+name, p.InstrPos(r), "found seat's own key / player (waiting predicate: arc(dealer, bb, that seat))", "what "+name+" yields for the seat it found is not that seat's own id / player")
 			}
+			// a look-up by id answers only from its scan: every other way out of the function is a refusal
+			// (an error, or nothing but sentinels) — a remembered seat that is handed out without asking whose
+			// seat it is now (a cache, a hint) answers for another player once the seat has changed hands
+			if tests["same-id"] && anyExit {
+				fromScan := map[*ssa.Return]bool{}
+				for _, bp := range sc.Body {
+					if !bp.Exit {
+						continue
+					}
+					eb := bp.ExitTo
+					if eb == nil {
+						eb = bp.Order[len(bp.Order)-1]
+					}
+					if r := followToReturn(eb); r != nil {
+						fromScan[r] = true
+					}
+				}
+				okAll, where := true, p.Pos(f.Pos())
+				for _, b := range f.Blocks {
+					r, isR := b.Instrs[len(b.Instrs)-1].(*ssa.Return)
+					if !isR || fromScan[r] {
+						continue
+					}
+					rs := retSyms(p, r)
+					refusal := true
+					hasErr := false
+					for i, s := range rs {
+						if isErrorType(f.Signature.Results().At(i).Type()) {
+							hasErr = true
+							if s.IsNil() {
+								refusal = false
+							}
+						}
+					}
+					if !hasErr {
+						for _, s := range rs {
+							if !s.IsConst() {
+								refusal = false
+							}
+						}
+					}
+					if !refusal {
+						okAll, where = false, p.InstrPos(r)
+					}
+				}
+				c.Check(okAll, rule, "seat-scan-only-answer:"+name, where, "every answer of "+name+" is a seat its scan matched against the given id; all other exits refuse", name+" hands out an answer that did not come from its scan of the seats for the given id (a remembered seat is not asked whose it is now)")
+			}
 		}
 	}
 	c.Min(rule, "seat look-up loops", n, 5)
